@@ -822,7 +822,7 @@ class Runner:
                 emitted[1] += 1 if interesting else 0
                 self.emit(variant, wname, ops, env, res, trace, picks)
         emitted = [0, 0]
-        stride = 1 if not ctx.quick else 6
+        stride = 6 if ctx.quick else (12 if all_lines else 3)
         go([])
         n = len(ops)
         if n == 2:
